@@ -31,6 +31,10 @@ def check(run, project):
                           what="with several input files / chunks only the last one is decoded")
     from .shared import reads_every_file
     reads_every_file(run, project, "T9", what="the decoder is fed a prefix of its source")
+    # T12: the lazy file source hands out BYTES whatever the file's mode: a text-mode file (sys.stdin, open(path)) is read
+    # through its byte buffer
+    from .shared import text_sources_unwrapped
+    text_sources_unwrapped(run, project, "T12", "the decoder is fed characters and fails before its first event")
     # T10 (= C03-R4): what a decode does depends on its own input only - it starts from its own empty list of open regions
     # (a shared default list would charge this decode with the regions an earlier, abandoned decode left open)
     from ..report import RuleView as _RV10
